@@ -80,7 +80,7 @@ def generate(combos):
     names = []
     for i, c in enumerate(combos):
         m, k = c["mech"], c["k"]
-        logger = {"ev": "r.plain()", "evk": "r.plain()", "evkglobal": "r.plain()", "ctx": "r.ctx()", "ctxcount": "r.ctxCount(%d)" % (2 + k), "ctxpinned": "r.ctxCount(%d)" % (2 + k), "evskipframe": "r.ctx()", "evskipchain": "r.ctx()", "global": "r.ctx()"}[m]
+        logger = {"ev": "r.plain()", "evk": "r.plain()", "evkglobal": "r.plain()", "ctx": "r.ctx()", "ctxcount": "r.ctxCount(%d)" % (2 + k), "ctxpinned": "r.ctxCount(%d)" % (2 + k), "ctxtwice": "r.ctxTwice()", "evskipframe": "r.ctx()", "evskipchain": "r.ctx()", "global": "r.ctx()"}[m]
         pre = "zerolog.CallerSkipFrameCount = %d; " % (2 + k) if m in ("global", "ctxpinned") else ("zerolog.CallerSkipFrameCount = 3; " if m == "evkglobal" else "")
         post = "zerolog.CallerSkipFrameCount = 2" if m == "ctxpinned" else ""   # the global changes between construction and use
         stmt = statement(c)
